@@ -11,11 +11,19 @@
 //   cereal   <arch> <w> <n> <m> <cls> <words…nm> <old…nm>      => <ok> <words…nm>          arch 0 binary 1 portable 2 JSON
 //   cereal2  <arch> <w> <n> <m> <cls> <a…nm> <b…nm>            => <ok> <a'…nm> <b'…nm>     two objects, one archive
 //   cerealtrunc <arch> <w> <n> <m> <cls> <cut> <total>         => <threw> <canary_ok>       archive bytes cut short
+//   hist     <mode> <w> <n> <m> <cls> <K> <imode> <src…K> <init…K*nm> <ns> (<code> <a> <b> <x>)×ns
+//                                                             => (<r1> <r2> <all K variables…K*nm>)×ns [mode 0: <total> <bytes…>]
+//            a history of statements over K variables and ONE stream; the receiving object of a read has a past: old
+//            contents, written before, and (poly_p) storage shared with other handles - src j = copy of variable j,
+//            imode 1/3 = std::vector<poly_p>(k, prototype).  mode 0 raw, 1..3 cereal binary/portable/JSON.
+//            steps: 0 write a | 1 read a | 2 copy a <- b | 3 a[b] = x.  r1 r2: bytes appended 0 | fail gcount.
+//            After EVERY statement the contents of ALL variables are printed (read through const&).
 // cls: 0 = nfl::poly, 1 = nfl::poly_p
 #include "common.hpp"
 #include <nfl.hpp>
 #include <sstream>
 #include <memory>
+#include <functional>
 #if __has_include(<cereal/archives/binary.hpp>)
 #define HAVE_CEREAL 1
 #include <cereal/archives/binary.hpp>
@@ -197,6 +205,195 @@ template <class T, size_t N, size_t M> struct S {
   }
 #endif
 
+  // ---- histories over several variables and one stream: the receiving object has a past -------------------------
+  // (old contents, written before, and - poly_p - storage shared with 1..k other handles, copies of a prototype)
+  struct HSt { int code; size_t a, b; unsigned long long x; };
+  struct Hist {
+    size_t K = 0, Kv = 0;          // variables; the first Kv are made by std::vector<PP>(Kv, prototype) when imode is 1 / 3
+    int imode = 0;                 // 0 copy constructors, 2 copy assignments, 1 vector(Kv, temporary prototype), 3 vector(Kv, prototype kept alive)
+    std::vector<int> src;          // -1 independently constructed, j < i copy of variable j
+    std::vector<std::vector<T>> init;
+    std::vector<HSt> prog;
+  };
+  using PutFn = std::function<long long(int, void*)>;                    // bytes appended (raw) / 0
+  using GetFn = std::function<std::pair<int, long long>(int, void*)>;    // (failed, gcount)
+
+  static P& at(std::vector<HolderP>& v, size_t i) { return v[i].obj(); }
+  static PP& at(std::vector<PP>& v, size_t i) { return v[i]; }
+  static void build(Hist const& h, std::vector<HolderP>& v) {
+    v = std::vector<HolderP>(h.K);
+    for (size_t i = 0; i < h.K; i++) fill(v[i].obj(), h.init[i]);
+  }
+  static void build(Hist const& h, std::vector<PP>& v, std::unique_ptr<PP>& keep) {
+    size_t first = 0;
+    if (h.imode == 1 || h.imode == 3) {
+      std::unique_ptr<PP> proto(new PP);                       // PP() when the initial value is zero: nothing is ever written to it
+      bool zero = true; for (T x : h.init[0]) zero = zero && x == 0;
+      if (!zero) fill(*proto, h.init[0]);
+      v = std::vector<PP>(h.Kv, static_cast<PP const&>(*proto));
+      if (h.imode == 3) keep = std::move(proto);
+      first = h.Kv;
+    }
+    v.reserve(h.K);
+    for (size_t i = first; i < h.K; i++) {
+      if (h.src[i] < 0) { v.emplace_back(); bool zero = true; for (T x : h.init[i]) zero = zero && x == 0; if (!zero) fill(v[i], h.init[i]); }
+      else if (h.imode == 2) { v.emplace_back(); v[i] = static_cast<PP const&>(v[h.src[i]]); }
+      else if ((i & 1) == 0) { PP const& s = v[h.src[i]]; v.emplace_back(s); }   // poly_p(poly_p const&)
+      else { PP& s = v[h.src[i]]; v.emplace_back(s); }                           // poly_p(poly_p&)
+    }
+  }
+  static void copy_var(P& d, P& s) { d = s; }
+  static void copy_var(PP& d, PP& s) { d = static_cast<PP const&>(s); }
+  static int all_ok(std::vector<HolderP>& v) { int ok = 1; for (auto& h : v) ok = ok && h.ok(); return ok; }
+  static int all_ok(std::vector<PP>&) { return 1; }
+
+  template <class Obj, class Vars> void hist_run(int mode, int cls, Hist const& h, Vars& vars, PutFn const& put, GetFn const& get,
+                                                 std::function<std::string()> const& written) {
+    printf("hist %d %d %zu %zu %d %zu %d", mode, W, N, M, cls, h.K, h.imode);
+    for (int s : h.src) printf(" %d", s);
+    for (auto& v : h.init) dump(v);
+    printf(" %zu", h.prog.size());
+    for (auto& s : h.prog) printf(" %d %zu %zu %llu", s.code, s.a, s.b, s.x);
+    printf(" =>");
+    for (auto& s : h.prog) {
+      long long r1 = 0, r2 = 0;
+      switch (s.code) {
+        case 0: r1 = put(cls, &at(vars, s.a)); break;
+        case 1: { auto r = get(cls, &at(vars, s.a)); r1 = r.first; r2 = r.second; } break;
+        case 2: copy_var(at(vars, s.a), at(vars, s.b)); break;
+        default: at(vars, s.a)(s.b / N, s.b % N) = (T)s.x; break;
+      }
+      if (!all_ok(vars)) r1 = 99;   // a canary next to a plain object was overwritten
+      printf(" %lld %lld", r1, r2);
+      for (size_t i = 0; i < h.K; i++) { Obj const& c = at(vars, i); dump(c); }   // read through const&: no un-sharing
+    }
+    if (mode == 0) { std::string all = written(); printf(" %zu", all.size()); dump_bytes(all); }
+    printf("\n");
+  }
+  template <class Obj> void hist_exec(int mode, int cls, Hist const& h, PutFn const& put, GetFn const& get,
+                                      std::function<std::string()> const& written) {
+    if constexpr (std::is_same<Obj, P>::value) {
+      std::vector<HolderP> vars; build(h, vars);
+      hist_run<P>(mode, cls, h, vars, put, get, written);
+    } else {
+      std::vector<PP> vars; std::unique_ptr<PP> keep; build(h, vars, keep);
+      hist_run<PP>(mode, cls, h, vars, put, get, written);
+    }
+  }
+  // the channels
+  template <class Obj> void hist_raw(int cls, Hist const& h) {
+    std::stringstream ss(std::ios::in | std::ios::out | std::ios::binary);
+    PutFn put = [&](int, void* o) { size_t b = ss.str().size(); static_cast<Obj*>(o)->serialize_manually(ss); return (long long)(ss.str().size() - b); };
+    GetFn get = [&](int, void* o) { static_cast<Obj*>(o)->deserialize_manually(ss); return std::make_pair(ss.fail() ? 1 : 0, (long long)ss.gcount()); };
+    hist_exec<Obj>(0, cls, h, put, get, [&] { return ss.str(); });
+  }
+#if HAVE_CEREAL
+  template <class OA, class IA, class Obj> void hist_cereal(int arch, int cls, Hist const& h) {
+    std::stringstream ss(std::ios::in | std::ios::out | std::ios::binary);
+    std::unique_ptr<OA> oa; std::unique_ptr<IA> ia;
+    PutFn put = [&](int, void* o) { if (!oa) oa.reset(new OA(ss)); (*oa)(*static_cast<Obj*>(o)); return 0LL; };
+    GetFn get = [&](int, void* o) {
+      oa.reset();                                   // closes the output archive (JSON: writes the closing brace)
+      int failed = 0;
+      try { if (!ia) ia.reset(new IA(ss)); (*ia)(*static_cast<Obj*>(o)); } catch (std::exception const&) { failed = 1; }
+      return std::make_pair(failed, 0LL);
+    };
+    hist_exec<Obj>(1 + arch, cls, h, put, get, [] { return std::string(); });
+  }
+#endif
+
+  // history generators.  two_phase: all writes before the first read (what an archive pair needs)
+  void hist_vars(Hist& h, size_t K) {
+    h.K = K; h.src.assign(K, -1); h.init.clear();
+    for (size_t i = 0; i < K; i++) h.init.push_back(words((int)g.below(8)));
+  }
+  void hist_share(Hist& h, size_t i, size_t j) { h.src[i] = (int)j; h.init[i] = h.init[j]; }
+  HSt rnd_side_step(Hist const& h) {   // copy or element store
+    if (g.below(2)) return HSt{2, (size_t)g.below(h.K), (size_t)g.below(h.K), 0};
+    return HSt{3, (size_t)g.below(h.K), (size_t)g.below(NM), (unsigned long long)(T)g.next()};
+  }
+  // kind 0: kv receivers made as a vector of copies of one prototype + kv independent sources; the sources are written,
+  //         then read back to back into the receivers (raw: also alternating write/read)
+  Hist hist_vector(bool two_phase) {
+    Hist h; size_t kv = 1 + g.below(4);
+    hist_vars(h, 2 * kv); h.Kv = kv; h.imode = g.below(2) ? 1 : 3;
+    if (g.below(2)) h.init[0] = words(2);   // std::vector<poly_p>(k, poly_p())
+    for (size_t i = 1; i < kv; i++) hist_share(h, i, 0);
+    bool alternate = !two_phase && g.below(2);
+    if (alternate) for (size_t i = 0; i < kv; i++) { h.prog.push_back(HSt{0, kv + i, 0, 0}); h.prog.push_back(HSt{1, i, 0, 0}); }
+    else { for (size_t i = 0; i < kv; i++) h.prog.push_back(HSt{0, kv + i, 0, 0}); for (size_t i = 0; i < kv; i++) h.prog.push_back(HSt{1, i, 0, 0}); }
+    return h;
+  }
+  // kind 1: a prototype with contents, k copies of it (constructors or assignments), one source: read into one of the
+  //         sharers (possibly the prototype itself), then into another
+  Hist hist_copies() {
+    Hist h; size_t k = 1 + g.below(4);
+    hist_vars(h, k + 2); h.imode = g.below(2) ? 0 : 2;
+    for (size_t i = 1; i <= k; i++) hist_share(h, i, g.below(2) ? 0 : i - 1);
+    size_t s = k + 1;
+    h.prog.push_back(HSt{0, s, 0, 0});
+    h.prog.push_back(HSt{3, s, (size_t)g.below(NM), (unsigned long long)(T)g.next()});
+    h.prog.push_back(HSt{0, s, 0, 0});
+    h.prog.push_back(HSt{1, (size_t)g.below(k + 1), 0, 0});
+    h.prog.push_back(HSt{1, (size_t)g.below(k + 1), 0, 0});
+    return h;
+  }
+  // kind 2: writing handles that share storage (no variable may change), then reading the images into the same group
+  Hist hist_write_shared() {
+    Hist h; size_t k = 2 + g.below(3);
+    hist_vars(h, k); h.imode = g.below(2) ? 0 : 2;
+    for (size_t i = 1; i < k; i++) hist_share(h, i, g.below(i));
+    size_t a = g.below(k), b = g.below(k);
+    h.prog.push_back(HSt{0, a, 0, 0});
+    h.prog.push_back(HSt{3, b, (size_t)g.below(NM), (unsigned long long)(T)g.next()});
+    h.prog.push_back(HSt{0, b, 0, 0});
+    h.prog.push_back(HSt{0, a, 0, 0});
+    for (int i = 0; i < 3; i++) h.prog.push_back(HSt{1, (size_t)g.below(k), 0, 0});
+    return h;
+  }
+  // kind 3: random sharing forest, random statements
+  Hist hist_random(bool two_phase) {
+    Hist h; size_t k = 1 + g.below(5);
+    hist_vars(h, k); h.imode = g.below(2) ? 0 : 2;
+    for (size_t i = 1; i < k; i++) if (g.below(3)) hist_share(h, i, g.below(i));
+    size_t len = 4 + g.below(9), pending = 0;
+    if (two_phase) {
+      size_t nw = 1 + g.below(4);
+      for (size_t i = 0; i < nw; i++) { while (g.below(3) == 0) h.prog.push_back(rnd_side_step(h)); h.prog.push_back(HSt{0, (size_t)g.below(k), 0, 0}); }
+      size_t nr = 1 + g.below(nw);
+      for (size_t i = 0; i < nr; i++) { while (g.below(3) == 0) h.prog.push_back(rnd_side_step(h)); h.prog.push_back(HSt{1, (size_t)g.below(k), 0, 0}); }
+      return h;
+    }
+    for (size_t i = 0; i < len; i++) {
+      uint64_t c = g.below(8);
+      if (c < 3) { h.prog.push_back(HSt{0, (size_t)g.below(k), 0, 0}); pending++; }
+      else if (c < 6 && pending) { h.prog.push_back(HSt{1, (size_t)g.below(k), 0, 0}); pending--; }
+      else h.prog.push_back(rnd_side_step(h));
+    }
+    while (pending && g.below(4)) { h.prog.push_back(HSt{1, (size_t)g.below(k), 0, 0}); pending--; }
+    if (!pending && g.below(3) == 0) {   // a read when nothing is left: the handle keeps its value, failbit is sticky (also for writes)
+      h.prog.push_back(HSt{1, (size_t)g.below(k), 0, 0});
+      h.prog.push_back(HSt{0, (size_t)g.below(k), 0, 0});
+      h.prog.push_back(HSt{1, (size_t)g.below(k), 0, 0});
+    }
+    return h;
+  }
+  Hist hist_of(int kind, bool two_phase) {
+    switch (kind) { case 0: return hist_vector(two_phase); case 1: return hist_copies(); case 2: return hist_write_shared(); default: return hist_random(two_phase); }
+  }
+  template <class Obj> void all_hist(int cls) {
+    int reps = thorough() ? 8 : 1;
+    for (int r = 0; r < reps; r++)
+      for (int kind = 0; kind < 6; kind++) {
+        hist_raw<Obj>(cls, hist_of(kind, false));
+#if HAVE_CEREAL
+        hist_cereal<cereal::BinaryOutputArchive, cereal::BinaryInputArchive, Obj>(0, cls, hist_of(kind, true));
+        hist_cereal<cereal::PortableBinaryOutputArchive, cereal::PortableBinaryInputArchive, Obj>(1, cls, hist_of(kind, true));
+        hist_cereal<cereal::JSONOutputArchive, cereal::JSONInputArchive, Obj>(2, cls, hist_of(kind, true));
+#endif
+      }
+  }
+
   template <class Obj> void all_for(int cls) {
     int reps = thorough() ? 6 : 2;
     for (int pat = 0; pat < 8; pat++)
@@ -217,6 +414,7 @@ template <class T, size_t N, size_t M> struct S {
     }
     seq<Obj>(cls, 3);
     if (thorough()) seq<Obj>(cls, 5);
+    all_hist<Obj>(cls);
 #if HAVE_CEREAL
     all_cereal<Obj>(cls);
 #endif
